@@ -37,6 +37,7 @@ from pathlib import Path
 CID = "C03b"
 WORK = V.BUILD / "work"
 EMPH = [0, 1, 2, 7, 8, 31, 32, 33, 63, 64, 65]
+OCT_MAX_DIGITS = 21      # longer octal literals: see known-finding probe
 
 # ----------------------------------------------------------------------------
 # Independent oracle: the mathematical definition of every frontend operator.
@@ -485,6 +486,7 @@ class Gen:
         base, bps = r.choice([("b", 1), ("b", 1), ("x", 4), ("o", 3)])
         if w % bps == 0 and r.random() < 0.5: nd, wopt = w // bps, 0
         else: nd, wopt = r.randint(0, w // bps), w
+        if base == "o" and nd > OCT_MAX_DIGITS: base, bps, nd, wopt = "b", 1, w, 0
         if wopt == 0 and nd == 0: wopt = 0
         alphabet = {"b": "01", "o": "01234567", "x": "0123456789abcdefABCDEF"}[base]
         digits = "".join(r.choice(alphabet) if r.random() < 0.97 else "x" for _ in range(nd)) or "_"
@@ -678,7 +680,7 @@ def exhaustive_cases(maxw):
     """all operand pairs for the width-sensitive signed operators at small widths, one case per
     (operator, wa, wb); the vectors enumerate all value pairs"""
     out = []
-    def words(w): return ["".join(t) for t in itertools.product("01", repeat=w)] or ["-"]
+    def words(w): return ["".join(t) or "-" for t in itertools.product("01", repeat=w)]
     for wa in range(1, maxw + 1):
         for wb in range(1, maxw + 1):
             vecs = " | ".join("%s %s" % (a, b) for a in words(wa) for b in words(wb))
